@@ -207,7 +207,7 @@ pub static SIGS: &[Sig] = &[
 const TvP1m: AK = AK::TvP1; // type tag of the (n+1)-dimensional matrix
 
 // ---------------------------------------------------------------- values
-fn maxmag_q(v: &Val<Q>) -> i128 {
+pub fn maxmag_q(v: &Val<Q>) -> i128 {
     let enc = v.enc();
     let mut m: i128 = 0;
     let mut cur: i128 = 0; let mut inn = false;
